@@ -116,6 +116,10 @@ package olla
 //@   replay proxy_success_on_error_status@internal/adapter/proxy
 //@   at call RecordSuccess 1 assert resp.StatusCode < 400
 //@   at call IsOpen 1 assert len(ghost(w).hdr["Content-Type"]) == old(len(ghost(w).hdr["Content-Type"]))
+// C08 (the engine's own breakers): a round trip that succeeded has closed the endpoint's breaker and cleared its
+// failure count by the time the response is started; one that failed has been counted
+//@   at call SetResponseHeaders 1 assert cb != nil ==> cb.state == 0 && cb.failures == 0
+//@   at call MakeUserFriendlyError 1 assert cb != nil ==> cb.failures >= 1 && cb.lastFailure <= now
 //@   ensures recSuccess + recFailure == old(recSuccess) + old(recFailure) + 1
 //@   ensures res == nil ==> recSuccess == old(recSuccess) + 1 && rtCount == old(rtCount) + 1
 //@   ensures rtCount <= old(rtCount) + 1
